@@ -173,6 +173,10 @@ def graph_programs(tier):
     add('g/interrupt', [vleaf('f1'), vleaf('f2')], [ExprS(Call('f1', []))], post='void interrupt irq() { f2(); }\n')
     add('g/interrupt_chain', [vleaf('f1'), F('f2', None, [], Block([ExprS(Call('f1', []))]))], [inc('vc')], post='void interrupt nmi() { f2(); }\nvoid interrupt irq2() { vc++; }\n')
     add('g/two_interrupts', [vleaf('f1'), vleaf('f2'), vleaf('f3')], [ExprS(Call('f3', []))], post='void interrupt i1() { f1(); }\nvoid interrupt i2() { f2(); }\n')
+    add('g/proto_interrupt', [vleaf('f1'), vleaf('f2')], [ExprS(Call('f1', []))], pre='void vbl();\n', post='void interrupt vbl() { f2(); }\n')
+    add('g/shared_helper', [vleaf('hlp'), vleaf('only_a'), F('fa', None, [], Block([ExprS(Call('hlp', [])), ExprS(Call('only_a', []))]))], [ExprS(Call('hlp', [])), ExprS(Call('fa', []))])
+    add('g/shared_helper_irq', [vleaf('hlp'), vleaf('only_i')], [ExprS(Call('hlp', []))], post='void interrupt irq() { hlp(); only_i(); }\n')
+    add('g/diamond_tail', [vleaf('f1'), vleaf('tail'), F('f2', None, [], Block([ExprS(Call('f1', [])), ExprS(Call('tail', []))])), F('f3', None, [], Block([ExprS(Call('f1', []))]))], [ExprS(Call('f3', [])), ExprS(Call('f2', []))])
     return P
 
 
@@ -230,7 +234,8 @@ def check_end_to_end(rep, tier, st):
         problems = []
         # (1) every call written in the source is recorded for its caller
         post_edges = set()
-        for m in re.finditer(r'void interrupt (\w+)\(\) \{ (\w+)\(\);', getattr(p, 'post', '')): post_edges.add((m.group(1), m.group(2)))
+        for m in re.finditer(r'void interrupt (\w+)\(\) \{ ([^}]*)\}', getattr(p, 'post', '')):
+            for cm in re.finditer(r'(\w+)\(\);', m.group(2)): post_edges.add((m.group(1), cm.group(1)))
         for a, b in sorted(call_edges(p) | post_edges):
             if b not in tree.get(a, []): problems.append('call %s -> %s is not in the published call tree (%s)' % (a, b, tree.get(a)))
         # (2) every JSR of the emitted code leads to a function reachable through the tree
